@@ -113,6 +113,17 @@ def run_replay(mod, path):
     with open(path) as f:
         data = json.load(f)
     case = data["case"] if "case" in data else data
+    if case.get("engine") == "repo-tests":
+        from vt.monitor import repo_tests
+
+        rep = repo_tests.run(case["files"], hypothesis_seed=case.get("hypothesis_seed", 0), extra_args=case.get("args", ()))
+        hits = [b for b in rep.get("broken", []) if b["contract"] == case.get("contract")]
+        if hits:
+            print("replay: contract %s broken: %s" % (hits[0]["contract"], hits[0]["detail"][:400]))
+            print("VIOLATION property=%s replay=%s" % (mod.ID, path))
+            return 1
+        print("replay: no violation (property=%s, %s) %s" % (mod.ID, path, rep.get("error", "")))
+        return 0
     ctx = core.Ctx(mod.ID, "quick", 0)
     core.install_step_monitor(env.REPO + os.sep)
     try:
@@ -185,6 +196,28 @@ def main(argv=None):
         return 3
 
     m = merge(results)
+    # ---- thorough tier: the repository's own test-suite replayed as an extra workload under
+    # the run-time contracts that are consequences of this property (vt/monitor/contracts.py)
+    rt = getattr(mod, "REPO_TESTS", None)
+    repo_tests_report = None
+    if rt and args.tier == "thorough" and os.environ.get("VT_NO_REPO_TESTS") != "1":
+        from vt.monitor import repo_tests
+
+        rep = repo_tests.run(rt["files"], hypothesis_seed=seed, extra_args=rt.get("args", ()))
+        repo_tests_report = {k: rep.get(k) for k in ("error", "installed", "tests_collected", "files",
+                                                     "hypothesis_seed", "skipped")}
+        if rep.get("error"):
+            timeouts.append("repo-tests: " + rep["error"][:200])
+        else:
+            for name in rt["contracts"]:
+                m["counters"]["repo_tests_contract_" + name] = rep["evaluations"].get(name, 0)
+            for b in rep.get("broken", []):
+                if b["contract"] in rt["contracts"]:
+                    m["violations"].append({
+                        "monitor": "contract-" + b["contract"], "detail": "under the repository's own tests: " + b["detail"],
+                        "case": {"engine": "repo-tests", "files": rt["files"], "args": list(rt.get("args", ())),
+                                 "hypothesis_seed": seed, "contract": b["contract"]}})
+    wall = time.time() - t0
     known = load_known(prop)
     unknown, matched = [], {}
     for v in m["violations"]:
@@ -196,6 +229,9 @@ def main(argv=None):
             matched[e["id"]] = (e, matched[e["id"]][1] + 1)
 
     floors = load_floors(mod, prop, args.tier)
+    if repo_tests_report is not None and not repo_tests_report.get("error"):
+        for name in rt["contracts"]:
+            floors.setdefault("repo_tests_contract_" + name, 1)
     below = {k: (m["counters"].get(k, 0), f) for k, f in floors.items()
              if m["counters"].get(k, 0) < f}
     if m["evaluations"] == 0:
@@ -218,6 +254,8 @@ def main(argv=None):
         "shards": args.shards,
         "notes": m["notes"][:10],
     }
+    if repo_tests_report is not None:
+        coverage["repo_tests_under_contracts"] = repo_tests_report
     exhaustive = getattr(mod, "EXHAUSTIVE", {}).get(args.tier)
     if exhaustive:
         coverage["exhaustive"] = True
